@@ -130,6 +130,21 @@ impl Property for C07 {
             }
             if harvested.len() >= 2 { rep.probe("crdt_history_group"); groups.push(harvested); }
         }
+        // ---- now and then a wide hash (300 fields on one replica) meets a write and a later delete of a field
+        // it has never held, issued on two other replicas: size thresholds inside the hash merge
+        if src.chance(1, 40) {
+            rep.probe("wide_hash_group");
+            let mut w3 = ShardReplicaState::new(ReplicaId::new(3), ConsistencyLevel::Eventual);
+            let mut w1 = ShardReplicaState::new(ReplicaId::new(1), ConsistencyLevel::Eventual);
+            let mut w2 = ShardReplicaState::new(ReplicaId::new(2), ConsistencyLevel::Eventual);
+            let wide = w3.record_hash_write("wide".to_string(), (0..300).map(|i| (format!("w{:03}", i), SDS::from_str("v"))).collect());
+            let old = w1.record_hash_write("wide".to_string(), vec![("x".to_string(), SDS::from_str("old"))]);
+            w2.apply_remote_delta(old.clone());
+            let tomb = w2.record_hash_delete("wide".to_string(), vec!["x".to_string()]);
+            let mut g = vec![wide.value.clone(), old.value.clone()];
+            if let Some(t) = tomb { g.push(t.value.clone()); }
+            groups.push(g);
+        }
         for g in &groups { vals.extend(g.iter().cloned()); }
         if groups.is_empty() { rep.evals = 1; return rep; }
         // ---- phase 2: twin replicas, same multiset, different order (+ duplicates)
